@@ -167,6 +167,20 @@ static void c15_prehash(int phase)
     }
 }
 
+/* --opt cbemcy=1: the application reports (or withdraws) error 0 from inside its CONmtModeChange callback, i.e. while CONmtGetMode() still names the state the
+ * node is leaving - whether a frame goes out is decided by that reported state */
+static int CBEMCY, cb_armed, cb_fired, cb_done_ntx;
+static void do_set(int err, int withusr, const char *what);
+static void do_clr(int err, const char *what);
+static int slot_of(int err);
+static void c15_cb_hook(uint8_t kind, uint32_t a, uint32_t b, uint32_t c)
+{
+    (void)a; (void)b; (void)c;
+    if (kind != CB_MODE_CHANGE || !cb_armed) return;
+    cb_armed = 0; cb_fired = 1;
+    if (M.active[slot_of(0)]) do_clr(0, "COEmcyClr(0) inside the mode-change callback"); else do_set(0, 0, "COEmcySet(0) inside the mode-change callback");
+    cb_done_ntx = OBS.ntx;
+}
 static void nc_poll(void) { if (!mc_opt("nopoll", 0)) (void)CONodeGetErr(&Node); }     /* --opt nopoll=1: the application never reads the node error */
 static int build(int cfg)
 {
@@ -479,7 +493,10 @@ static int step(int ev)
         break; }
     case EV_NMT: {
         uint8_t d[2] = { E->a, NODEID };
+        CBEMCY = mc_opt("cbemcy", 0); cb_fired = 0; cb_done_ntx = 0;
+        if (CBEMCY && E->a != 129 && E->a != 130) { cb_armed = 1; w_cb_hook = c15_cb_hook; }
         w_rx(&Node, 0x000, 2, d);
+        cb_armed = 0; w_cb_hook = 0;
         M.nmt = (uint8_t)CONmtGetMode(&Node.Nmt);                 /* the NMT machine itself is C09's subject: follow it */
         if (E->a == 129 || E->a == 130) {
             /* an NMT reset clears every error without an emergency frame (C20: "emergencies cleared"); register, count and the frames of
@@ -490,7 +507,7 @@ static int step(int ev)
             memset(M.active, 0, sizeof M.active);
         }
         mc_log("    NMT command %d -> mode %d\n", E->a, M.nmt);
-        check_frames(&x, 0, what);
+        check_frames(&x, cb_fired ? cb_done_ntx : 0, what);
         break; }
     case EV_START:                                                /* INIT -> PRE-OPERATIONAL (boot-up message), only in the INIT configuration */
         if (M.nmt != CO_INIT) return MC_SKIP;
